@@ -43,10 +43,6 @@ type fullSpec struct {
 	// into return entries (Addenda99, Category Return): a return batch next to forward batches
 	// with the same IAT header
 	IATReturn []int `json:"iatReturn,omitempty"`
-	// Strip: indices (into Batches) of standard batches whose stored trace numbers lose their
-	// leading zero (header ODFI starts with 0): 14-character strings next to 15-character ones;
-	// Go's string order then differs from the numeric order
-	Strip []int `json:"strip,omitempty"`
 }
 
 func aba8h(rtn string) string {
@@ -121,20 +117,6 @@ func buildFull(s fullSpec) (f *ach.File, err error) {
 			return nil, fmt.Errorf("iat return batch: %v", err)
 		}
 		changed = true
-	}
-	for _, i := range s.Strip {
-		if i < 0 || i >= len(f.Batches) {
-			continue
-		}
-		for _, e := range f.Batches[i].GetEntries() {
-			if len(e.TraceNumber) == 15 && e.TraceNumber[0] == '0' {
-				e.TraceNumber = e.TraceNumber[1:]
-				if e.Addenda99 != nil {
-					e.Addenda99.TraceNumber = e.TraceNumber
-				}
-				changed = true
-			}
-		}
 	}
 	if changed {
 		if err := f.Create(); err != nil {
@@ -306,22 +288,11 @@ func genFull(r *rng.R, big bool) fullSpec {
 		s.File = genSpec(r, 2, big)
 	case x < 15: // ADV
 		s.File = genSpec(r, 3, big)
-	case x < 17: // leading-zero ODFI, some batches with 14-character trace numbers
-		s.File = genSpec(r, 0, big)
-		for i := range s.File.Hdrs {
-			s.File.Hdrs[i].ODFI = "0" + s.File.Hdrs[i].ODFI[:7]
-		}
-		for i := range s.File.Batches {
-			if r.Bool() {
-				s.Strip = append(s.Strip, i)
-			}
-		}
 	default:
 		s.File = genSpec(r, 0, big)
 	}
 	s.File.Bypass = false
 	s.File.TraceODFI = ""
-	s.File.ViaText = s.File.ViaText && len(s.Strip) == 0
 	hasIAT := false
 	for _, h := range s.File.Hdrs {
 		if h.Sec == "IAT" {
@@ -400,9 +371,6 @@ func corrFull(args []string) {
 				dist["files_mixed_category_same_signature"]++
 				break
 			}
-		}
-		if len(s.Strip) > 0 {
-			dist["files_short_trace_strings"]++
 		}
 		res := flatten(f)
 		o := observeFull(res)
